@@ -27,14 +27,15 @@ def _path():
 SYSTEMS_QUICK = [
     [("solver", ["X", "X"]), ("ifaceA", ["P", "W", "C"])],
     [("solver", ["X", "X"]), ("ifaceA", ["Q", "R"])],
+    [("solver", ["X", "X"]), ("ifaceA", ["P", "C"])],
     [("solver", ["X", "X"]), ("ifaceA", ["Q", "P", "W", "C", "R"])],
     [("solver", ["X", "X"]), ("ifaceA", ["P", "W", "C"]),
      ("ifaceB", ["Q", "R"])],
+    [("solver", ["X", "X"]), ("ifaceA", ["P", "W", "C"]),
+     ("ifaceB", ["P", "W", "C"])],
 ]
 SYSTEMS_THOROUGH = SYSTEMS_QUICK + [
     [("solver", ["X", "X", "X"]), ("ifaceA", ["P", "W", "Q", "C", "R"])],
-    [("solver", ["X", "X"]), ("ifaceA", ["P", "W", "C"]),
-     ("ifaceB", ["P", "W", "C"])],
     [("solver", ["X", "X"]), ("ifaceA", ["Q", "R"]),
      ("ifaceB", ["Q", "R"])],
     [("solver", ["X", "X", "X"]), ("ifaceA", ["Q", "R", "Q", "R"])],
@@ -58,14 +59,19 @@ elif expect == "exec":
     if any(v > 1 for v in r["executed"].values()):
         bad = "a queued command ran more than once: %%s" %% r["executed"]
 elif expect == "early_wait":
-    # wait() returned (mark W end) although the solver had not begun to
-    # park: no solver sync op 'notify_all' on plock precedes it in the trace
-    w_end = [m for m in r["marks"] if m[1] == "W" and m[3] == "end"]
-    if w_end:
-        pos = w_end[0][4]
-        solver_notified = any(n == "solver" and w == "notify_all" for n, w in r["trace"][:pos])
-        if not solver_notified:
-            bad = "wait() returned at sync op %%d before the solver reached its control point" %% pos
+    # wait() returned (mark W end) although, in its current control point,
+    # the solver had not yet announced that it is pausing (notify_all)
+    for m in r["marks"]:
+        if m[1] == "W" and m[3] == "end":
+            pos = m[4]
+            begins = [x[4] for x in r["marks"] if x[0] == "solver" and x[3] == "begin" and x[4] <= pos]
+            b = max(begins) if begins else 0
+            announced = any(n == "solver" and w == "notify_all" for n, w in r["trace"][b:pos])
+            if not announced:
+                bad = "%%s: wait() returned at sync op %%d before the solver paused at a control point" %% (m[0], pos)
+elif expect == "progress":
+    if r["left_paused"]:
+        bad = "the solver left wait_for_cmd while pause requests %%s were still pending" %% r["left_paused"]
 sys.exit(common.replay_exit(bad))
 '''
 
@@ -159,6 +165,17 @@ def unit_system(idx, K, thorough=False, timeout_ms=400000, only=None):
     props["error"] = z3.Or(*er)
     props["exec"] = z3.Or(*ex)
     props["early_wait"] = z3.Or(*ew)
+    # the solver leaves wait_for_cmd although a pause request it has seen
+    # is still pending
+    code0 = S.threads[0]["code"]
+    exits = [ins[2] for ins in code0 if ins[0] == "jf" and
+             ins[1] == "pause_nonempty"]
+    pg = []
+    for st in states:
+        pend = z3.Or(*[z3.And(st["pause%d" % t], st["obs%d" % t])
+                       for t in range(1, S.nt)])
+        pg.append(z3.And(z3.Or(*[st["pc0"] == p for p in exits]), pend))
+    props["progress"] = z3.Or(*pg)
 
     ncex = 0
     for pname, bad in props.items():
@@ -190,7 +207,7 @@ def unit_system(idx, K, thorough=False, timeout_ms=400000, only=None):
         ncex += 1
         expect = {"deadlock": "deadlock", "deadlock_known_class": "deadlock",
                   "error": "error", "exec": "exec",
-                  "early_wait": "early_wait"}[pname]
+                  "early_wait": "early_wait", "progress": "progress"}[pname]
         p = common.write_replay(PID, "sys%d_%s_%d" % (idx, pname, ncex),
                                 REPLAY % dict(programs=programs, order=order,
                                               expect=expect, path=_path()))
@@ -233,7 +250,7 @@ def main():
             # three threads: one process per property (the unsat proofs take
             # minutes each)
             for group in (("deadlock", "deadlock_known_class"), ("error",),
-                          ("exec",), ("early_wait",)):
+                          ("exec",), ("early_wait",), ("progress",)):
                 units.append(("vf.props.c18", "unit_system",
                               dict(idx=i, K=K if thorough else 36,
                                    thorough=thorough, only=group)))
